@@ -30,7 +30,7 @@ DESIGN_REF = "DESIGN.md §3 C10"
 KF1 = "pickle-self-reachable-tuple"
 RULE = (
     "Worlds built by generated histories (cycles, self-loops, parallel links, None ends, 0-3 universes incl. nested "
-    "and self-member, importable Vertex/edge subclasses, law sets with whitelists), with runtime attributes on "
+    "and self-member, importable Vertex/edge subclasses incl. falsy ones, a multiply-inheriting one and one that hashes by uid, law sets with whitelists), with runtime attributes on "
     "vertices, links and universes drawn from scalars (ints incl. > 2^63, floats incl. nan/inf/-0.0, str, bytes, "
     "bool, None, str/bytes/bytearray payloads above 64 KiB), lists/dicts/tuples/sets nested to depth 3, dicts keyed by / sets of graph objects, references to graph objects and a pool of SHARED "
     "containers attached to several holders; graphs queried before pickling (full battery: warm neighbor caches and any other memo queries may leave); root in {universe, vertex, link, list of "
@@ -111,7 +111,7 @@ def strategy(tier):
     op = st.tuples(st.sampled_from(OPS_W), st.integers(0, 11), st.integers(0, 11), st.integers(0, 47))
     world = st.builds(
         lambda nv, nuni, ops, laws, shared, attrs, warm, root, proto, loader, via_file, fd, fl, muts: {
-            "t": "world", "nv": nv, "nuni": min(nuni, nv - 1), "ops": [list(o) for o in ops], "laws": laws,
+            "t": "world", "vcls": [(len(attrs) + proto) % 6, (nv + root) % 6, 5 * (proto % 2)], "nv": nv, "nuni": min(nuni, nv - 1), "ops": [list(o) for o in ops], "laws": laws,
             "shared": shared, "attrs": [list(a) for a in attrs], "warm": warm, "root": root, "proto": proto,
             "loader": loader, "via_file": via_file, "flag_dump": fd, "flag_load": fl, "muts": [list(m) for m in muts],
         },
@@ -149,7 +149,7 @@ class Builder:
         from edgegraph.structure.universe import UniverseLaws
 
         case = self.case
-        w = World(case["nv"], case.get("nuni", 0))
+        w = World(case["nv"], case.get("nuni", 0), case.get("vcls"))
         for op in case["ops"]:
             r = w.resolve(op)
             if r is None:
@@ -177,6 +177,21 @@ class Builder:
                 # unhashable element in a set/dict-key position: skip this attribute
                 continue
         return w
+
+    def hashable_obj(self, k):
+        """
+        A graph object to be used as dict key / set element.  Objects whose __hash__ needs their state
+        (UidHashVertex) are not used there: inside a reference cycle no pickler can hash them before their state
+        is restored (a limitation of pickle itself, not of nrpickler).
+        """
+        from eglib import classes as C
+
+        n = len(self.objs)
+        for d in range(n):
+            o = self.objs[(k + d) % n]
+            if not isinstance(o, C.UidHashVertex):
+                return o
+        return k
 
     def _has_ref(self, spec):
         if spec[0] in ("ref", "odict", "oset"):
@@ -225,9 +240,9 @@ class Builder:
                     self.multi_tuple = True
             return self.shared_objs[k]
         if t == "odict":
-            return {self.objs[k % len(self.objs)]: self.value(v, depth + 1, in_shared) for k, v in spec[1]}
+            return {self.hashable_obj(k): self.value(v, depth + 1, in_shared) for k, v in spec[1]}
         if t == "oset":
-            return {self.objs[k % len(self.objs)] for k in spec[1]}
+            return {self.hashable_obj(k) for k in spec[1]}
         if t == "huge":
             n = 65536 + spec[2] if spec[2] % 3 else spec[2]   # two thirds at or above 64 KiB
             self.huge = True
